@@ -144,13 +144,16 @@ Fixpoint get_coeff (idx : sym) (e : iexpr) : res Z :=
 
 Definition get_stride_of (r : irange) (idx : sym) : res Z := get_coeff idx (base r).
 
+(* range_analysis.py:98-114 (after the repair that keeps self.lo / self.hi) *)
 Definition partial_eval_with_range (self : irange) (var : sym) (rng : irange) : res rval :=
   bind (get_stride_of self var) (fun c =>
     if c =? 0 then Ok (RRange self)
     else
-      bind (analyze [[(var, (lo rng, hi rng))]] (base self)) (fun new_bounds =>
-        if is_zero (base rng) then Ok new_bounds
-        else py_add new_bounds (RRange (mkrange (IBin OMul (IConst c) (base rng)) (Some 0) (Some 0))))).
+      bind (analyze [[(var, (lo rng, hi rng))]] (base self)) (fun nb0 =>
+        let nb1 := match nb0 with RInt n => RRange (create_int n) | _ => nb0 end in
+        bind (py_add nb1 (RRange (mkrange zero (lo self) (hi self)))) (fun nb =>
+          if is_zero (base rng) then Ok nb
+          else py_add nb (RRange (mkrange (IBin OMul (IConst c) (base rng)) (Some 0) (Some 0)))))).
 
 Definition get_size (r : irange) : option Z :=
   match lo r, hi r with
